@@ -104,9 +104,17 @@ def covers_as_documented(leaf, box, lagrangian=False):
     return common.canon_json(sm.ech_json(con.ech)) == common.canon_json(mo)
 
 
-def solve_feas(leaf, box=None):
+def solve_feas(leaf, box=None, warm=False):
     import sageopt as so
     f = st.build(leaf)
+    if warm and box is not None:
+        # the same signomial over all of R^n first, in the same process (a model is often relaxed without and then with its domain):
+        # what that build leaves behind must not leak into the build over the box
+        try:
+            so.sage_feasibility(st.build(leaf))
+            so.sig_relaxation(st.build(leaf), form='primal')
+        except RuntimeError:
+            pass
     X = rm.build_sig_domain(leaf['n'], box)
     try:
         prob = so.sage_feasibility(f, X=X)
@@ -117,9 +125,14 @@ def solve_feas(leaf, box=None):
     return rm.solve_ecos(prob)
 
 
-def solve_bound(leaf, box=None, form='primal', ell=0):
+def solve_bound(leaf, box=None, form='primal', ell=0, warm=False):
     import sageopt as so
     f = st.build(leaf)
+    if warm and box is not None:
+        try:
+            so.sig_relaxation(st.build(leaf), form=form, ell=ell)
+        except RuntimeError:
+            pass
     X = rm.build_sig_domain(leaf['n'], box)
     try:
         prob = so.sig_relaxation(f, X=X, form=form, ell=ell)
@@ -215,8 +228,10 @@ def stream_boxes(ctx, rng, N, seen_boxes, given=None):
         ctx.case(case, nontrivial=True)
         ctx.count('stream:box')
         scale = max(1.0, abs(lo), abs(hi))
+        import zlib
+        warm = zlib.crc32(common.canon_json(leaf).encode()) % 2 == 0        # (a fixed half of the cases, the same on every replay)
         if lo > 1e-3 * scale or hi < -1e-3 * scale:
-            s, v = solve_feas(leaf, box)
+            s, v = solve_feas(leaf, box, warm=warm)
             if s != 'solved':
                 ctx.incon('box: feasibility status %s' % s)
             else:
@@ -243,7 +258,7 @@ def stream_boxes(ctx, rng, N, seen_boxes, given=None):
         pos['c'][0] = frac_str(-abs(F(leaf['c'][0])))
         plo, phi = lipschitz_enclosure(pos, box)
         for form in ('primal', 'dual'):
-            s, v = solve_bound(pos, box, form=form)
+            s, v = solve_bound(pos, box, form=form, warm=warm)
             if s != 'solved':
                 ctx.incon('box: bound status %s' % s)
                 continue
